@@ -135,7 +135,7 @@ def build(tier):
                         'the QP solve for 3 and more entries (bundle_t::solve through program::solver_t: that the multipliers it leaves are the simplex-constrained minimiser, in particular sum alpha_i == 1 and alpha_i >= 0; for 2 entries with equal sub-gradients the code relies on IEEE inf / NaN and std::isfinite, outside the real model), the proximity parameter, delta() / proximal(), the Nesterov sequences of fpba: erased numerics',
                         'that delete_inactive / delete_largest (nano::remove_if on the three buffers, std::nth_element) keep the (E, S) pair of every retained entry together: assumed by the append obligations (the size / capacity side of it is proved by the CBMC targets)',
                         'the ellipsoid update and the linearisation-error identities in floating point (rounding, cancellation), for n > 3 / more than 3 bundle entries (the formula obligations are BOUNDED stand-ins over the reals), and Eigen storage aliasing in `H = expression of H`',
-                        'ellipsoid: that the minimiser stays inside the ellipsoid for n != 2 (the containment property of the deep-cut update is shown at n = 2 only, thorough tier, bounded), that H stays positive definite, and that alpha < 1 (x* inside the initial radius; for alpha > 1 the update makes g\'H+g negative and the NEXT iteration reports converged through the degenerate exit g\'Hg < machine epsilon: outside the quantifier of the property)'],
+                        'ellipsoid: that the minimiser stays inside the ellipsoid for n != 2 (the containment property of the deep-cut update is shown at n = 2 only, thorough tier, bounded), that H stays positive definite, and that alpha < 1 (x* inside the initial radius; for alpha >= 1 the cut misses the ellipsoid, H+ is no longer positive definite and a later iteration leaves through one of the two stopping tests: observed natively for f = |x0 - 5| + 2|x1 + 3| from x0 = 0 with R = 0.5, 1, 2: status converged after 36 evaluations at f - f* = 9.9, 8.8, 6.5, while R = 10 converges to (5, -3); this is outside the quantifier of the property, which places x* inside the initial radius)'],
         'assumptions': ['cardinality lemma for std::nth_element + nano::remove_if (entries at or after the partition point are >= any element at or before it), stated in specs/C03/bundle.h; checked on the real nano::remove_if for capacities <= 5 by the bounded target lemma_remove_if_cardinality_bounded',
                         'CBMC targets: contents of m_bundleS, smeared_e/smeared_s and the QP solve are erased (the formula obligations of specs/C03/bundle_num.py keep them, at bounded sizes)',
                         'formula obligations (specs/C03/ellipsoid_num.py, bundle_num.py): double is treated as real; Eigen / nano tensor operators (+ - * / on vectors and matrices, products, transpose, dot, norm, lpNorm<2>, identity, .array() += scalar, matrix *= / /= scalar, tensor.slice(b, e), matrix.vector(i) / .tensor(i) as row views, the linear index H(0) of a rank-2 tensor) have their mathematical meaning and a right-hand side is evaluated before it is assigned (also under .noalias() when the right-hand side is coefficient-wise at the top: nested products are evaluated into temporaries); tensor.vector() / .matrix() are Eigen::Map views of the tensor\'s own storage (a local initialised with one is another name of the tensor)',
